@@ -306,7 +306,7 @@ func TestC07(t *testing.T) {
 						cfg.P[5] = FBits(1.0)
 					}
 				}
-				if cfg.Kind == 3 && cfg.P[2] > 4 && r.Bool(25) {
+				if cfg.Kind == 3 && cfg.P[2] > 4 && r.Bool(60) {
 					cfg.P[0] = r.Range(1, cfg.P[2]-1) // Gradient2 built below its configured minimum: an app-limited sample must still not move it
 				}
 			})
@@ -331,6 +331,13 @@ func TestC07(t *testing.T) {
 						}
 						c.violate(sig, fmt.Sprintf("a non-drop sample with in-flight %d below half the estimate %v raised EstimatedLimit() %d -> %d", p.Inflight, p.EstF, p.Est, o.Est))
 					}
+				}
+			}
+			if kind == 3 && l.Cfg.P[0] > 0 && l.Cfg.P[0] < l.Cfg.P[2] {
+				// built below the minimum: the very first samples are app-limited ones
+				for i := 0; i < 3 && !l.Dead; i++ {
+					l.Now += 1000
+					check(c.sample(l, tr, l.Now, st.base, 0, false))
 				}
 			}
 			n := r.Intn(Scale(80, 300))
@@ -456,10 +463,17 @@ func TestC15(t *testing.T) {
 				cntBefore = int64(cb)
 			}
 			n := Scale(200, 600)
+			collapseAt := -1
+			if kind == 1 && r.Bool(40) {
+				collapseAt = 20 + r.Intn(40)
+			}
 			for i := 0; i < n && !l.Dead; i++ {
 				start, rtt, inflight, drop := st.Next()
 				if rtt >= 1<<53 {
 					rtt = st.base // baseline equality is exact for integers below 2^53
+				}
+				if collapseAt >= 0 && i >= collapseAt && i < collapseAt+70 {
+					rtt, inflight, drop = st.base, p2(l), true // a collapse: the estimate (and with it the probe threshold) shrinks
 				}
 				p, o := c.sample(l, tr, start, rtt, inflight, drop)
 				if o.Panicked {
@@ -468,6 +482,10 @@ func TestC15(t *testing.T) {
 				reset := false
 				if kind == 1 {
 					reset = o.Probe
+					// the probe threshold follows the CURRENT estimate: jitter <= 1, so once the count reaches multiplier x estimate the sample must probe
+					if !o.Probe && float64(sinceReset+1) >= float64(l.Mult)*p.EstF+1 {
+						c.violate("vegas:reset-overdue", fmt.Sprintf("%d samples since the last baseline reset with multiplier %d and estimate %v: this sample had to probe", sinceReset+1, l.Mult, p.EstF))
+					}
 				} else {
 					_, cb := l.grad.VerifState()
 					reset = l.Interval > 0 && int64(cb) > cntBefore-1+0 && int64(cb) >= l.Interval && cntBefore-1 <= 0
